@@ -123,6 +123,11 @@ def tok2_classifier(pkey, nontrivial_rule, dict_panic_is_failure=True, astral_cl
             info["prop_fail"] = "astral-char-takes-entry-0-category"
             info["why"] = "a character above U+FFFF was given the category of U+0000 instead of DEFAULT"
             tags.append("astral=entry0")
+        elif pkey in ("C06", "C08", "C12") and "panic" in impl.split() and "panic" not in mobs.split():
+            # these properties promise a token sequence for every sentence (equal to that of another dictionary / sentence):
+            # a panic where the model, proved total on accepted dictionaries (tokenize_total), returns tokens is a failing input
+            info["prop_fail"] = "panic"
+            info["why"] = "the implementation panicked where the model returns a value"
         elif dict_panic_is_failure and len(first) >= 2 and first[0].startswith("D") and first[1] == "panic":
             info["prop_fail"] = "dictionary-operation-panic"
             info["why"] = "a dictionary-level operation (map ids / load user lexicon / write-read) panicked instead of returning an error"
